@@ -9,6 +9,7 @@ pub mod c03;
 pub mod c04;
 pub mod c05;
 pub mod c06;
+pub mod c07;
 pub mod c12;
 pub mod c13;
 pub mod c14;
@@ -32,6 +33,7 @@ pub fn info(prop: &str) -> Option<PropInfo> {
         "C04" => Some(c04::INFO),
         "C05" => Some(c05::INFO),
         "C06" => Some(c06::INFO),
+        "C07" => Some(c07::INFO),
         "C12" => Some(c12::INFO),
         "C13" => Some(c13::INFO),
         "C14" => Some(c14::INFO),
@@ -49,6 +51,7 @@ pub fn run(prop: &str, cfg: &RunCfg, direct: Option<&serde_json::Value>) -> Outc
         "C04" => c04::run(cfg, direct),
         "C05" => c05::run(cfg, direct),
         "C06" => c06::run(cfg, direct),
+        "C07" => c07::run(cfg, direct),
         "C12" => c12::run(cfg, direct),
         "C13" => c13::run(cfg, direct),
         "C14" => c14::run(cfg, direct),
@@ -58,4 +61,4 @@ pub fn run(prop: &str, cfg: &RunCfg, direct: Option<&serde_json::Value>) -> Outc
     }
 }
 
-pub const ALL: &[&str] = &["C01", "C02", "C03", "C04", "C05", "C06", "C12", "C13", "C14", "C17", "C18"];
+pub const ALL: &[&str] = &["C01", "C02", "C03", "C04", "C05", "C06", "C07", "C12", "C13", "C14", "C17", "C18"];
